@@ -312,6 +312,8 @@ class DefIndex:
             c3 = [c for c in c2 if c[1] is None]
             if c3:
                 c2 = c3
+        if len(c2) > 1 and len({c[2].name.split('#')[0] for c in c2}) == 1:
+            c2 = c2[:1]      # `const fn`s are dumped twice (const-eval and runtime bodies)
         if len(c2) == 1:
             return c2[0][2]
         if len(c2) > 1:
